@@ -194,6 +194,16 @@ func (p *clientStreamProcessorFMP4) processSegment(ctx context.Context, seg *seg
 			}
 
 			partTrackCount++
+
+			// never have more pending entries than chPartTrackProcessed can hold,
+			// otherwise track processors and this routine wait for each other.
+			if partTrackCount == clientMaxTracksPerStream {
+				err = p.joinTrackProcessors(ctx, partTrackCount)
+				if err != nil {
+					return err
+				}
+				partTrackCount = 0
+			}
 		}
 	}
 
